@@ -48,6 +48,6 @@ def all_arrays(alphabet, lmax, dtype, lmin=1):
 
 
 ALPH = {
-    "bool": [False, True], "int8": [-128, 0, 127], "int64": [-2 ** 63, 0, 5], "uint8": [0, 255, 7], "uint64": [0, 2 ** 64 - 1, 3],
+    "bool": [False, True], "int8": [-128, 0, 127], "int64": [-2 ** 63, -2 ** 63 + 1, 5], "uint8": [0, 255, 7], "uint64": [0, 2 ** 64 - 1, 2 ** 64 - 2],
     "float16": [0.0, 1.0, float("nan")], "float32": [0.0, -0.0, 1.5, float("nan")], "float64": [0.0, float("inf"), -2.5, float("nan")],
 }
